@@ -138,5 +138,6 @@ func Flatten(it Item) Item {
 		})
 		return it
 	}
-	return it.GetLink()
+	// NOTE: only objects that have an id can be replaced by it, links and objects without an id stay as they are
+	return FlattenToIRI(it)
 }
